@@ -865,6 +865,9 @@ func (g *VCGen) loopHeader(b *ssa.BasicBlock, li *loopInfo, preds []*ssa.BasicBl
 		name := g.freshConst("variant@loop"+fmt.Sprint(li.index), "Int")
 		g.assume(fmt.Sprintf("(= %s %s)", name, v.T))
 		li.decrAt = name
+	} else if g.fc != nil && hasProp(g.fc.Props, "terminates") {
+		// the contract promises a bounded delay: a loop whose termination is not argued is a failed obligation
+		g.oblige(g.loopName(li)+".decreases.missing", "termination", "false", "the contract of this function states that it terminates (props terminates): every loop needs a decreases clause", g.loopPos(li.header))
 	} else if !(g.fc != nil && hasProp(g.fc.Props, "noterm")) {
 		g.warnings = append(g.warnings, fmt.Sprintf("loop %d has no decreases clause", li.index))
 	}
